@@ -638,7 +638,7 @@ func (nb *numbering) declTerm(sc *Scenario, app appdef.IAppDef) string {
 	blk := 0
 	if sc.Vsql {
 		for _, r := range sysRules(app) {
-			out = append(out, fmt.Sprintf("(mkD %s %d false [] %s)", nb.n(r.Workspace().QName()), blk, nb.realRule(r)))
+			out = append(out, fmt.Sprintf("(mkD %s %d false [] false %s)", nb.n(r.Workspace().QName()), blk, nb.realRule(r)))
 			blk++
 		}
 	}
@@ -658,7 +658,7 @@ func (nb *numbering) declTerm(sc *Scenario, app appdef.IAppDef) string {
 		if len(r.Scribble) == len(r.Fields) && len(r.Fields) > 0 && !sc.Vsql {
 			scr = nb.fs(r.Scribble)
 		}
-		out = append(out, fmt.Sprintf("(mkD %s %d %s %s (mkRule %s %s %s %s %s))", nb.n(qn(ws)), blk, kit.Bool(all), scr, kit.List(oo),
+		out = append(out, fmt.Sprintf("(mkD %s %d %s %s %s (mkRule %s %s %s %s %s))", nb.n(qn(ws)), blk, kit.Bool(all), scr, kit.Bool(sc.Vsql), kit.List(oo),
 			kit.Bool(r.Kind == "grant" || r.Kind == "grantall"), nb.filtD(r.Flt), nb.fs(r.Fields), nb.n(qn(r.Role))))
 		if !sc.Vsql {
 			blk++
